@@ -419,10 +419,10 @@ class euler1d(euler):
         p1 = param['p']
         # isentropic invariant p/rho**gam = cst
         rho1 = data[0]*(p1/data[2])**(1./g)
-        # C- invariant (or C+ according to dir)
+        # invariant of the outgoing characteristic u+dir*a: u + dir*2a/(gam-1) (C+ on the right side, C- on the left side)
         a0 = np.sqrt(g*data[2]/data[0])
         a1 = np.sqrt(g*p1/rho1)
-        u1 = data[1] + dir*2/gmu*(a1-a0)
+        u1 = data[1] - dir*2/gmu*(a1-a0)
         return [ rho1, u1, p1 ]
 
     @_bcdict.register()
